@@ -132,6 +132,9 @@ func c11Invariants(L []lexer.Token, el map[lexer.TokenType]bool, named bool, n *
 }
 
 func c11Child(c *mon.Child) {
+	if c.Batch == 0 {
+		c11Parseable(c)
+	}
 	nInputs := c.N(120, 240)
 	ks := []int{0, 1, 2, 5, participle.MaxLookahead, -1}
 	for gi, h := range gram.Registry {
@@ -228,7 +231,7 @@ func c11Child(c *mon.Child) {
 func init() {
 	Register(&mon.Spec{
 		ID:          "C11",
-		Rule:        "case = (generated grammar whose productions all carry Pos, EndPos and Tokens - directly, through an embedded struct, or as a named type convertible from lexer.Position; input with random spaces/newlines/comments; lookahead; AllowTrailing). On every successful parse (a) model-free invariants against Parser.Lex output: each Tokens is a contiguous slice of the stream, child within parent, siblings disjoint and in input order, Pos = first non-elided token of the run, EndPos = next raw token, Pos<=EndPos; (b) model-based: every node's (Tokens, Pos, EndPos) equals the run the reference derivation consumed, and the root's run ends where the parse stopped. Non-trivial: >=2 nodes checked and the reference trace abandoned an attempt before the parse succeeded. Distinct by (grammar IR, text, configuration).",
+		Rule:        "case = (generated grammar whose productions all carry Pos, EndPos and Tokens - directly, through an embedded struct, or as a named type convertible from lexer.Position; input with random spaces/newlines/comments; lookahead; AllowTrailing). On every successful parse (a) model-free invariants against Parser.Lex output: each Tokens is a contiguous slice of the stream, child within parent, siblings disjoint and in input order, Pos = first non-elided token of the run, EndPos = next raw token, Pos<=EndPos; (b) model-based: every node's (Tokens, Pos, EndPos) equals the run the reference derivation consumed, and the root's run ends where the parse stopped. Non-trivial: >=2 nodes checked and the reference trace abandoned an attempt before the parse succeeded. Distinct by (grammar IR, text, configuration). Batch 0 also runs a grammar with a hand-written Parseable that looks ahead and backs off with MakeCheckpoint/LoadCheckpoint inside nodes carrying Pos/EndPos/Tokens, on programs the harness writes itself (so every statement extent is known).",
 		Assumptions: []string{"Pos/EndPos are only judged for nodes that consumed at least one token, in grammars that do not name elided types (as the property says)"},
 		Batches:     func(t string) int { return pick(t, 4, 16) },
 		Floor:       func(t string) int { return pick(t, 800, 12000) },
